@@ -194,3 +194,25 @@ func H15c_UnsupportedType() {
 	out2, err2 := GetQuote("x", rd)
 	vp.Assert("unsupported-type-rejected-getquote", vp.And(err2 != nil, out2 == nil))
 }
+
+// H15f: histories. A raw quote handed to the caller is the caller's: a later fetch through the same
+// or another device - successful or not - does not change a byte of it (no buffer shared between calls).
+func H15f_EarlierQuoteSurvivesLaterFetch() {
+	d := &hDevice{tdReport: vp.Bytes("tdReport", 1024), outLen: vp.U32("outLen"), quoteData: vp.Bytes("quoteData", 16384)}
+	vp.Assume(d.outLen > 0)
+	vp.Assume(d.outLen <= 64)
+	rd, _ := reportData()
+	first, err := GetRawQuote(d, rd)
+	vp.Assert("first-fetch-succeeds", err == nil)
+	if err != nil {
+		return
+	}
+	saved := append([]byte(nil), first...)
+	// second fetch: other data, any outcome
+	d2 := &hDevice{reportErr: vp.Choose("reportErr2", 2) == 1, quoteErr: vp.Choose("quoteErr2", 2) == 1, tdReport: vp.Bytes("tdReport2", 1024),
+		status: vp.U64("status2"), outLen: vp.U32("outLen2"), quoteData: vp.Bytes("quoteData2", 16384)}
+	var rd2 [64]byte
+	copy(rd2[:], vp.Bytes("reportData2", 64))
+	_, _ = GetRawQuote(d2, rd2)
+	vp.Assert("earlier-quote-unchanged-by-a-later-fetch", vp.BytesEq(first, saved))
+}
